@@ -71,7 +71,7 @@ def check(ctx):
                construct="%s/%s/key" % (fn, node.attr),
                msg="registry %s subscripted by %s, not by self.addr" % (node.attr, show(bad[0][1].a["key"]) if bad else ""))
     ctx.count("registry_access_sites", n_access)
-    ctx.floor("registry accesses in protocol code", n_access, 40)
+    ctx.floor("registry accesses in protocol code", n_access, 30)
     for e in wholes:
         ctx.ob("I-WHOLE", "%s whole-registry use" % where(e), False, where=where(e), function=e.func,
                construct="%s/whole-registry" % e.func, msg="protocol code uses a whole per-address registry: %s" % e.brief())
